@@ -52,7 +52,7 @@ def obsMatches (r : Res Str) (tag pay : String) : Bool :=
 def renderOp (filters : Str → Option (V → List V → Res V)) (args : List String) : String :=
   match run pRenderCase args with
   | some (c, []) =>
-    let env : Env := { partials := c.partials, filters := filters }
+    let env : Env := Env.ofList c.partials filters
     let r := renderTop defaultFuel env c.tmpl c.data
     if obsMatches r c.obsTag c.obsPayload then "ok " ++ c.kind
     else "diff " ++ c.kind ++ " model=" ++ showRes r ++ " impl=" ++ c.obsTag ++ " " ++ c.obsPayload
